@@ -30,9 +30,22 @@ def patterns(rng, E, M, n):
     return sorted(out)
 
 
+def half_to_double_bits(h):
+    import struct
+    f = struct.unpack("<e", struct.pack("<H", h))[0]
+    return struct.unpack("<Q", struct.pack("<d", f))[0]
+
+
 def gen(tier, rng, harness=None):
     lines = []
     n = 150 if tier == "quick" else 5000
+    # the legacy 16-digit spelling of half values (and float values are always spelled that way)
+    hs = range(1 << 16) if tier == "thorough" else patterns(rng, 5, 10, 3 * n)
+    for h in hs:
+        e, fr = (h >> 10) & 0x1F, h & 0x3FF
+        if e == 0x1F and fr != 0:
+            continue
+        lines.append("!flt.spell16 half %04X %016X" % (h, half_to_double_bits(h)))
     if tier == "thorough":
         for b in range(1 << 16):
             h = "%04X" % b
